@@ -1,7 +1,7 @@
 """C12 — per-channel request limit throttles exactly the excess (limiter logic against a contract channel)."""
 import os
 import time
-from vlib import Scratch, inject_c12_overlay, Inconclusive, log, write_evidence
+from vlib import Scratch, inject_c12_overlay, Inconclusive, log, write_evidence, replay_test
 import kprop
 
 PID = "C12"
@@ -13,6 +13,14 @@ def m(limit, start):
             "min_covers_sat": 2}
 METAS = {"c12_limit0": m(0, 0), "c12_limit1_idle": m(1, 0), "c12_limit1_busy": m(1, 1),
          "c12_limit2_one_in_flight": m(2, 1), "c12_limit2_full": m(2, 2), "c12_limit2_over": m(2, 3)}
+def mrel(limit, start):
+    d = m(limit, start)
+    d["desc"] = ("as the base harness with limit %d / %d in flight, but the wrapped channel may also RELEASE up to 2 requests (a Cancel or an expiry it processes) at the start of each of its polls, before it reads — which the real BaseChannel::poll_next does in one call. "
+                 "Decides the property's last sentence: a request is refused only if the limit really was reached when it was read" % (limit, start))
+    d["symbolic"] = SYM + ["how many requests the wrapped channel releases at the start of each of its polls (0..2)"]
+    return d
+METAS["c12_limit1_busy_release_in_poll"] = mrel(1, 1)
+METAS["c12_limit2_full_release_in_poll"] = mrel(2, 2)
 STATIC = {
     "coverage": {
         "functions_encoded": ["tarpc::server::limits::requests_per_channel::MaxRequests::<M>::{new, poll_next, start_send, in_flight_requests} (M = harness channel implementing tarpc's Channel contract)",
@@ -42,7 +50,14 @@ def main(tier):
             log("INCONCLUSIVE property=%s: %s" % (PID, e))
             write_evidence(PID, tier, t0, {"evaluations": 1, "distinct_nontrivial": 0, "explanation": str(e), "samples": []}, STATIC["assumptions"], 0)
             return 2
+        def real_channel(h, vals):
+            # second opinion for the release-in-poll harnesses: the same history against a REAL BaseChannel
+            if "release_in_poll" not in h:
+                return None
+            lim = "1" if "limit1" in h else "2"
+            ok, out = replay_test(s, "c12_cancel_then_request", {"VERIF_LIMIT": lim})
+            return {"test": "c12_cancel_then_request (real BaseChannel + max_concurrent_requests(%s) over the in-memory transport)" % lim, "reproduced": not ok, "output": out}
         recs, viol, known, inc, wall = kprop.decide(PID, tier, s, "overlay12", METAS, cwd=os.path.join(s.repo, "tarpc"), timeout_s=2400,
-                                                    harness_timeout=900, jobs=6,
-                                                    replay_kw={"as_test": [], "rustflags": "--cfg verif_replay", "test_name": "verif_replay_entry_c12"})
+                                                    harness_timeout=900, jobs=8,
+                                                    replay_kw={"as_test": [], "rustflags": "--cfg verif_replay", "test_name": "verif_replay_entry_c12"}, extra_replay=real_channel)
         return kprop.finish(PID, tier, t0, recs, viol, known, inc, STATIC, {"source_digest": s.src_digest, "kani_wall_s": round(wall, 1)})
